@@ -105,7 +105,8 @@ def spaces(tier, seed):
     T = tier == "thorough"
     sp = [
         Product("core", {"f": range(len(FORMATS)), "dt": range(len(CORE)), "pref": range(len(PREFS)), "now": [0, 1]}),
-        Product("sweep-day", {"f": [FORMATS.index(x) for x in ("%Y-%m-%d", "%d.%m.%y", "%A, %d %B %Y %I:%M %p")],
+        Product("sweep-day", {"f": [FORMATS.index(x) for x in ("%Y-%m-%d", "%d.%m.%y", "%A, %d %B %Y %I:%M %p", "%Y-%j", "%y%m%d", "%m/%d/%Y %H:%M:%S.%f",
+                                                               "%a %d %b %Y %I:%M:%S %p", "%B %d, %Y", "%Y%m%d %H:%M")],
                               "ord": range(cal.ordinal(1900, 1, 1), cal.ordinal(2100, 12, 31) + 1), "pref": [0], "now": [0]},
                 note="every day 1900-01-01..2100-12-31"),
         Product("localized-month-names", {"ln": range(len(lang_names())), "lf": ["%d %B %Y", "%B %d, %Y %H:%M", "%B %Y"], "d": [1, 15, 28],
